@@ -80,7 +80,7 @@ func c01Opts() gen.GenOpts {
 	return gen.GenOpts{
 		Encodings: []string{"quoted-printable", "base64", "8bit"}, MaxParts: 4, MaxEmbeds: 3, MaxAttach: 3, AllowNoBody: true,
 		PartEncs: []string{"", "", "quoted-printable", "base64", "8bit"}, FileEncs: []string{"", "", "base64", "8bit", "quoted-printable"},
-		Descriptions: true, TextOnlyQP: true, Chunking: true,
+		Descriptions: true, TextOnlyQP: true, Chunking: true, Boundaries: true,
 	}
 }
 
@@ -100,7 +100,7 @@ func c01Describe() {
 		"One case in six is rendered after another message (a twin of the same program) failed to render into a destination that broke after 1..4000 bytes. Oracle: own RFC 5322/2045/2046/2047 reader on WriteTo's output: leaf list == model in order (type, charset, CTE, disposition, file name, decoded bytes; QP modulo LF->CRLF), nesting shape, boundaries, count; cross-checked with net/mail + mime/multipart. " +
 		"Non-trivial: >= 2 leaves, or a leaf whose content contains a byte its CTE must transform. Distinct by (message encoding, per-leaf type/encoding/content-class set)."
 	rec.Assumptions = []string{"quoted-printable text parts are generated with CRLF/LF line breaks only (lone CR is outside the statement's domain for QP text)",
-		"caller-chosen boundaries are not generated", "the host's MIME table may pick any syntactically valid type for files without a declared content type"}
+		"a caller-chosen boundary is generated only for programs with exactly one multipart level (the documented domain of WithBoundary)", "the host's MIME table may pick any syntactically valid type for files without a declared content type"}
 }
 
 func TestC01(t *testing.T) {
